@@ -126,6 +126,16 @@ pub mod implementations {
         let left = left.move_out_of_heap_primitive()?;
         let right = right.move_out_of_heap_primitive()?;
 
+        // the type checker lets an optional stand in for its payload as an operand; a present
+        // optional produced by a built-in arrives boxed and is opened here (nil stays nil).
+        let open_present_optional = |primitive: Primitive| match primitive {
+            Optional(Some(ref inner)) => inner.as_ref().clone(),
+            other => other,
+        };
+
+        let left = open_present_optional(left);
+        let right = open_present_optional(right);
+
         let result = match (symbols.as_str(), &left, &right) {
             ("+", ..) => left + right,
             ("-", ..) => left - right,
